@@ -48,6 +48,10 @@ class Ctx:
         """heap views as they were at the head of the current iteration of loop `ordn`"""
         return OldCtx(self._eng, self._st.ghost[f"head{ordn}"], self._env)
 
+    def at_head(self, ordn, name):
+        """value (z3 term) a local variable had at the head of the current iteration of loop `ordn`"""
+        return self._st.ghost[f"headenv{ordn}"][name].t
+
     def outer(self, ordn):
         """ghost state of an enclosing `for` loop (its current iteration)"""
         return self._st.ghost[f"loop{ordn}"]
@@ -135,7 +139,7 @@ class Contract:
     def __init__(self, qualname, params, requires=None, ensures=None, raises=None, loops=None,
                  local_types=None, modifies=None, result_type=None, assumed_asserts=None,
                  pure=None, trusted=False, defaults=None, properties=(), note="", may_raise=None,
-                 captured=None, lemmas=None):
+                 captured=None, lemmas=None, ann_types=None, axioms=None):
         self.qualname = qualname
         self.short = qualname.split(".", 1)[1] if qualname.startswith("biobalm.") else qualname
         self.params = params                  # list of (name, Ty | HeapParam)
@@ -157,6 +161,8 @@ class Contract:
         self.may_raise = may_raise or {}      # call-site: exc -> (condition lambda c | None)
         self.captured = captured or []        # nested def: names captured from the enclosing function
         self.lemmas = lemmas or []            # (lemma name, lambda c -> instance) assumed at every exit
+        self.ann_types = ann_types or {}      # annotation text -> Ty overriding the global table
+        self.axioms = axioms or []
 
     # ----- body verification side
     def ctx(self, eng, st, result=None, ghost=None, at_exit=False):
@@ -215,7 +221,8 @@ class Contract:
         return any(a in text for a in self.assumed_asserts)
 
     def type_of_annotation(self, text):
-        return ANNOTATIONS.get(text.replace(" ", ""))
+        t = text.replace(" ", "")
+        return self.ann_types.get(t, ANNOTATIONS.get(t))
 
     def modifies_param(self, idx, name):
         if name is None:
